@@ -18,6 +18,7 @@ RULE = ('statements = generated SELECTs (expressions, every join kind, derived t
         'GROUP BY/HAVING, ORDER BY ASC/DESC NULLS FIRST/LAST, LIMIT/OFFSET under a total order, window functions) and INSERT/UPDATE/DELETE/'
         'CREATE TABLE/DROP TABLE, each on several random states; targets sqlite (always) and mysql/postgresql when SQLite accepts the text; '
         'non-trivial = both texts executed on a non-empty state; distinct by (statement, target)')
+RULE += "; also: chains of 2-4 set operations over a non-unique column, trailing ORDER BY .. LIMIT after a set operation, CTE interaction shapes, aliases without AS, LIMIT 0 / beyond the row count, equal-valued int/float literals; MySQL output is read with MySQL's literal rule"
 ASSUMPTIONS = ['sqlite3 3.40 is the reference engine; the original text is itself executable on it',
                '`/` is generated only with a REAL operand (SQLAlchemy renders true division; integer division is dialect-defined)',
                'FOR UPDATE and other non-row-level differences are not judged; unsupported shapes (NotImplementedError/SQLAlchemyError) are C17\'s business']
